@@ -548,7 +548,7 @@ def d_guard(site):
     return None
 
 
-MEMLEN_CALLS = re.compile(r"(::byte_len|Option::unwrap|::len|::packet_len|::remaining_len|::property_len|::will_property_len|::payload_len|::value|size_of\w*|::sum|::unwrap_or|::remaining|::capacity|::count)$")
+MEMLEN_CALLS = re.compile(r"(::byte_len|Option::unwrap|::len|::packet_len|::remaining_len|::property_len|::will_property_len|::payload_len|::value|size_of\w*|::sum|::unwrap_or|::remaining|::capacity|::count|<impl std::convert::From<(u8|u16|u32|bool|core::base_types::VarSizeInt)> for usize>::from|^<usize as std::convert::From<(u8|u16|u32|bool|core::base_types::VarSizeInt)>>::from)$")
 
 
 def d_memlen(site):
@@ -611,11 +611,40 @@ def _is_len_value(body, o, depth=0, seen=None):
             nm = callee_resolved(t) or ""
             if MEMLEN_CALLS.search(nm):
                 continue
+            if re.search(r"Option::map_or$", nm) and len(t["ops"]) == 3:
+                # `opt.map_or(default, f)`: the default and every result of f are lengths
+                fp = _fn_value(body, t["ops"][2])
+                if fp and _is_len_value(body, t["ops"][1], depth + 1, seen) and (MEMLEN_CALLS.search(fp) or _len_fn(fp)):
+                    continue
+                return False
             if not _len_fn(nm):
                 return False
         else:
             return False
     return True
+
+
+def _fn_value(body, op):
+    """Path of the function or closure an operand denotes (a fn item, a closure literal), else None."""
+    for _ in range(6):
+        if op.get("k") == "const":
+            f = op.get("fn")
+            return (f.get("resolved") or f.get("def")) if f else None
+        if op.get("k") not in ("move", "copy") or [p for p in op["pl"]["p"] if p != "deref"]:
+            return None
+        ds = body.whole_defs(op["pl"]["l"])
+        if len(ds) != 1 or ds[0][0] != "stmt":
+            return None
+        rv = ds[0][3]["rv"]
+        if rv["k"] == "agg" and rv.get("what") == "closure":
+            return rv["def"]
+        if rv["k"] == "use":
+            op = rv["op"]
+        elif rv["k"] == "ref":
+            op = {"k": "copy", "pl": rv["pl"]}
+        else:
+            return None
+    return None
 
 
 def _len_fn(path):
@@ -870,14 +899,41 @@ def _sfield(body, x):
     return None
 
 
-def _size_ge_packet_end(body, bb):
+def _size_field(body):
+    """The stream field that counts the buffered bytes, read off the unit itself: the field S of `buf.resize(S + chunk, _)`
+    (the buffer is made at least S + chunk long before every read)."""
+    c = body.__dict__.setdefault("_size_field_cache", [])
+    if not c:
+        found = set()
+        for i, t in body.calls(r"BytesMut::resize$"):
+            if len(t["ops"]) < 2 or _sfield(body, t["ops"][0]) is None:
+                continue
+            o = body.origin(t["ops"][1], through_calls=False)
+            rv = o[2]["rv"] if o[0] == "rv" else None
+            if rv is None and o[0] == "place" and o[1]["p"] and isinstance(o[1]["p"][-1], dict) and o[1]["p"][-1].get("f") == 0:
+                ds = body.whole_defs(o[1]["l"])
+                if len(ds) == 1 and ds[0][0] == "stmt":
+                    rv = ds[0][3]["rv"]
+            if rv is not None and rv["k"] == "bin" and rv["op"] == "Add":
+                for x in (rv["a"], rv["b"]):
+                    sf = _sfield(body, x)
+                    if sf is not None:
+                        found.add(sf)
+        c.append(found.pop() if len(found) == 1 else ("size", None))
+    return c[0]
+
+
+def _size_ge_packet_end(body, bb, end=("packet", "end")):
     """A dominating edge on which `size >= packet.end` holds (the complete packet is in the buffer)."""
+    size = _size_field(body)
+    if end == size:
+        return None
     for (d, s_) in dominating_edges(body, bb):
         c = Cond(body, d)
         if c.kind != "cmp" or c.holds_on(s_) is None:
             continue
         for x, y, op in ((c.a, c.b, c.op), (c.b, c.a, {"Lt": "Gt", "Gt": "Lt", "Le": "Ge", "Ge": "Le", "Eq": "Eq", "Ne": "Ne"}[c.op])):
-            if _sfield(body, x) == ("size", None) and _sfield(body, y) == ("packet", "end"):
+            if _sfield(body, x) == size and _sfield(body, y) == end:
                 eff = op if c.holds_on(s_) else {"Lt": "Ge", "Ge": "Lt", "Gt": "Le", "Le": "Gt", "Eq": "Ne", "Ne": "Eq"}[op]
                 if eff in ("Ge", "Gt", "Eq"):
                     return d
@@ -918,7 +974,7 @@ def d_stream(site):
     if site.kind == "assert" and site.extra["msg"].startswith("Overflow(Add)"):
         a, b = site.extra["ops"]
         for x, y in ((a, b), (b, a)):
-            if _sfield(body, x) == ("size", None) and y.get("k") != "const" and any(q[0] == "call" and q[1].endswith("poll_read") for q in body.atoms(y)):
+            if _sfield(body, x) == _size_field(body) and y.get("k") != "const" and any(q[0] == "call" and q[1].endswith("poll_read") for q in body.atoms(y)):
                 for i, t in body.calls(r"AsyncRead::poll_read$"):
                     if not body.dominates(i, site.bb):
                         continue
@@ -927,17 +983,19 @@ def d_stream(site):
                         rng = symex(body, dst[2]["ops"][1])
                         if rng[0] == "agg" and len(rng[2]) == 2 and rng[2][1][0] == "bin" and rng[2][1][1] == "Add" and rng[2][0] in (rng[2][1][2], rng[2][1][3]):
                             st_leaf = [l for l in sym_leaves(rng[2][0]) if l[0] == "place"]
-                            if st_leaf and any((RXS_, "size") in set(l[2]) for l in st_leaf):
+                            if st_leaf and any((RXS_, _size_field(body)[0]) in set(l[2]) for l in st_leaf):
                                 return "D-stream: size + n with n the byte count of a read into buf[size..size+chunk] (n <= chunk, and size + chunk was computed without overflow for that slice at %s)" % body.site(i)
     if site.kind == "assert" and site.extra["msg"].startswith("Overflow(Sub)"):
         a, b = site.extra["ops"]
-        if _sfield(body, a) == ("size", None):
+        if _sfield(body, a) == _size_field(body):
             fb = _sfield(body, b)
             is_len = b.get("k") != "const" and any(q[0] == "call" and q[1].endswith("::len") for q in body.atoms(b)) and \
                 any(q[0] == "field" and q[1] == RXS_ and q[2] == "packet" for q in body.atoms(b))
-            if fb == ("packet", "end") or is_len:
-                g = _size_ge_packet_end(body, site.bb)
-                if g is not None and (fb == ("packet", "end") or _packet_start_is_zero(body)):
+            if is_len:
+                fb = ("packet", "end")
+            if fb is not None:
+                g = _size_ge_packet_end(body, site.bb, fb)
+                if g is not None and (not is_len or _packet_start_is_zero(body)):
                     return "D-stream: size - (length of the packet) on the edge size >= packet.end established at %s (packet.start is only ever 0)" % body.site(g)
     if site.kind == "bytes" and "split_to" in site.what and site.term is not None and len(site.term["ops"]) >= 2:
         t = site.term
@@ -946,8 +1004,9 @@ def d_stream(site):
             o = body.origin(n, through_calls=False)
             if o[0] == "call" and (callee_name(o[2]) or "").endswith("mem::replace"):
                 n = o[2]["ops"][0]
-            if _sfield(body, n) == ("packet", "end") or (n.get("k") != "const" and _sfield(body, {"k": "copy", "pl": {"l": n["pl"]["l"], "p": []}}) == ("packet", "end")):
-                g = _size_ge_packet_end(body, site.bb)
+            nf = _sfield(body, n) or (n.get("k") != "const" and _sfield(body, {"k": "copy", "pl": {"l": n["pl"]["l"], "p": []}})) or None
+            if nf:
+                g = _size_ge_packet_end(body, site.bb, nf)
                 if g is not None:
                     return "D-stream: buf.split_to(packet.end) on the edge size >= packet.end established at %s (buf is resized to at least `size` bytes before every read and shrinks only by this split)" % body.site(g)
     return None
@@ -977,6 +1036,237 @@ def d_build(ctx, site):
     if not missing:
         return "D-build: mandatory fields %s of %s are set before build() on every path" % (sorted(bi["mandatory"]) or "(none)", short_ty(badt))
     return None
+
+
+# ------------------------------------------------------------------------------------ value ranges
+
+_TYMAX = {"u8": 2 ** 8 - 1, "u16": 2 ** 16 - 1, "u32": 2 ** 32 - 1, "u64": 2 ** 64 - 1, "usize": 2 ** 64 - 1, "bool": 1}
+_RANGEFN = {}
+
+
+def _ty_range(ty):
+    return (0, _TYMAX[ty]) if ty in _TYMAX else None
+
+
+def _join(a, b):
+    if a is None or b is None:
+        return None
+    return (min(a[0], b[0]), max(a[1], b[1]))
+
+
+def _mut_borrowed(body, l):
+    """The local's address is taken mutably (or as a raw pointer) somewhere: assignments are not its only writers."""
+    key = ("mutb", l)
+    cache = body.__dict__.setdefault("_range_cache", {})
+    if key not in cache:
+        hit = False
+        for i in body.reach:
+            for st in body.blocks[i]["stmts"]:
+                if st["k"] == "assign" and st["rv"]["k"] in ("ref", "addr") and st["rv"]["pl"]["l"] == l and (st["rv"]["k"] == "addr" or st["rv"].get("mut")):
+                    hit = True
+                if st["k"] == "assign" and st["lhs"]["l"] == l and st["lhs"]["p"]:
+                    hit = True      # partial assignment
+        cache[key] = hit
+    return cache[key]
+
+
+def value_range(body, o, depth=0, seen=None):
+    """(lo, hi) bounding every value the unsigned integer operand can take, from the constants, the types and the
+    arithmetic that define it -- flow-insensitive: a local is bounded by the join over all its assignments; a local that
+    depends on itself (a loop counter) or that is written through a reference is bounded by its type only."""
+    if o is None or depth > 40:
+        return None
+    if o.get("k") == "const":
+        v = o.get("val")
+        if o.get("uneval") and isinstance(o["uneval"].get("eval"), int):
+            v = o["uneval"]["eval"]
+        if isinstance(v, bool):
+            return (int(v), int(v))
+        if isinstance(v, int):
+            return (v, v) if v >= 0 else None
+        if isinstance(v, str) and v.isdigit():
+            return (int(v), int(v))
+        return _ty_range(o.get("ty"))
+    pl = o["pl"]
+    ty = _op_ty(body, o)
+    tr = _ty_range(ty)
+    proj = [p for p in pl["p"]]
+    l = pl["l"]
+    seen = seen if seen is not None else set()
+    checked_part = len(proj) == 1 and isinstance(proj[0], dict) and proj[0].get("f") == 0
+    if proj and not checked_part:
+        return tr
+    if l <= body.fn["arg_count"] or _mut_borrowed(body, l) and not checked_part:
+        return tr
+    if l in seen:
+        return tr
+    seen = seen | {l}
+    ds = body.whole_defs(l)
+    if not ds:
+        return tr
+    acc = "none"
+    for d in ds:
+        r = None
+        if d[0] == "stmt":
+            rv = d[3]["rv"]
+            if checked_part and not (rv["k"] == "bin" and rv.get("checked")):
+                return tr
+            if rv["k"] == "use":
+                r = value_range(body, rv["op"], depth + 1, seen)
+            elif rv["k"] == "cast" and rv.get("kind") == "IntToInt":
+                r = value_range(body, rv["op"], depth + 1, seen)
+                t2 = _ty_range(rv["ty"])
+                if r is None or t2 is None or r[1] > t2[1]:
+                    r = t2
+            elif rv["k"] == "bin":
+                a = value_range(body, rv["a"], depth + 1, seen)
+                b = value_range(body, rv["b"], depth + 1, seen)
+                r = _range_bin(rv["op"], a, b, bool(rv.get("checked")))
+            else:
+                r = None
+        elif d[0] == "call":
+            nm = callee_resolved(d[2]) or ""
+            r = _range_fn(nm)
+        if r is None:
+            return tr
+        acc = r if acc == "none" else _join(acc, r)
+    if acc == "none" or acc is None:
+        return tr
+    if tr is not None:
+        if acc[1] > tr[1]:
+            return tr       # may have wrapped
+    return acc
+
+
+def _range_bin(op, a, b, checked):
+    if a is None or b is None:
+        if op == "Rem" and b is not None and b[0] > 0:
+            return (0, b[1] - 1)
+        if op == "BitAnd" and (a is not None or b is not None):
+            return (0, (a or b)[1])
+        return None
+    if op == "Add":
+        return (a[0] + b[0], a[1] + b[1])
+    if op == "Mul":
+        return (a[0] * b[0], a[1] * b[1])
+    if op == "Sub":
+        if checked:
+            return (max(a[0] - b[1], 0), max(a[1] - b[0], 0))       # the value exists only when there was no overflow
+        return (a[0] - b[1], a[1] - b[0]) if a[0] >= b[1] else None
+    if op == "Div":
+        return (a[0] // b[1], a[1] // b[0]) if b[0] > 0 else None
+    if op == "Rem":
+        return (0, min(a[1], b[1] - 1)) if b[0] > 0 else None
+    if op == "BitAnd":
+        return (0, min(a[1], b[1]))
+    if op == "Shr":
+        return (a[0] >> min(b[1], 127), a[1] >> min(b[0], 127))
+    if op in ("BitOr", "BitXor"):
+        m = max(a[1], b[1])
+        return (0, (1 << m.bit_length()) - 1)
+    return None
+
+
+def _range_fn(path):
+    """Join of the ranges of everything a crate function returns (its parameters bounded by their types only)."""
+    ctx = _CTX[0]
+    if ctx is None or not path:
+        return None
+    if path in _RANGEFN:
+        return _RANGEFN[path]
+    _RANGEFN[path] = None
+    f = ctx.facts.fn(path)
+    if f is None or f.get("ret_ty") not in _TYMAX:
+        return None
+    b = ctx.world.body(path)
+    acc = "none"
+    for i in sorted(b.reach):
+        rs = []
+        for st in b.blocks[i]["stmts"]:
+            if st["k"] == "assign" and st["lhs"]["l"] == 0:
+                if st["lhs"]["p"]:
+                    return None
+                rv = st["rv"]
+                if rv["k"] == "use":
+                    rs.append(value_range(b, rv["op"]))
+                elif rv["k"] == "bin":
+                    rs.append(_range_bin(rv["op"], value_range(b, rv["a"]), value_range(b, rv["b"]), bool(rv.get("checked"))))
+                elif rv["k"] == "cast" and rv.get("kind") == "IntToInt":
+                    r = value_range(b, rv["op"])
+                    t2 = _ty_range(rv["ty"])
+                    rs.append(r if (r is not None and t2 is not None and r[1] <= t2[1]) else t2)
+                else:
+                    rs.append(None)
+        t = b.term(i)
+        if t["k"] == "call" and t["dest"]["l"] == 0:
+            rs.append(_range_fn(callee_resolved(t) or "") if not t["dest"]["p"] else None)
+        for r in rs:
+            if r is None:
+                r = _ty_range(f.get("ret_ty"))
+            acc = r if acc == "none" else _join(acc, r)
+    if _mut_borrowed(b, 0):
+        acc = None
+    _RANGEFN[path] = None if acc == "none" else acc
+    return _RANGEFN[path]
+
+
+def _array_len(ty):
+    m = re.match(r"&?(?:mut )?\[.*; (\d+)\]$", (ty or "").strip())
+    return int(m.group(1)) if m else None
+
+
+def d_range(site):
+    """The check cannot fail for any value in the ranges of its operands (ranges from constants, types, arithmetic and
+    the constants a crate function returns): `len - 1` with len in 1..=4, `bytes[len - 1]` / `bytes[..len]` on a [u8; 4]."""
+    body = site.body
+    if site.kind == "assert":
+        ops = site.extra["ops"]
+        msg = site.extra["msg"]
+        if len(ops) != 2:
+            return None
+        a, b = value_range(body, ops[0]), value_range(body, ops[1])
+        if a is None or b is None:
+            return None
+        m = re.match(r"Overflow\((\w+)\)", msg)
+        if m and m.group(1) == "Sub" and a[0] >= b[1]:
+            return "D-range: %s - %s cannot go below zero" % (_fmt_r(a), _fmt_r(b))
+        if m and m.group(1) == "Add":
+            tm = _ty_range(_op_ty(body, ops[0]))
+            if tm and a[1] + b[1] <= tm[1] and (a[1] < tm[1] and b[1] < tm[1]):
+                return "D-range: %s + %s fits the type" % (_fmt_r(a), _fmt_r(b))
+        if m and m.group(1) == "Mul":
+            tm = _ty_range(_op_ty(body, ops[0]))
+            if tm and a[1] * b[1] <= tm[1] and (a[1] < tm[1] and b[1] < tm[1]):
+                return "D-range: %s * %s fits the type" % (_fmt_r(a), _fmt_r(b))
+        if msg == "BoundsCheck" and a[0] == a[1] and b[1] < a[0]:
+            return "D-range: index %s into %d elements" % (_fmt_r(b), a[0])
+        return None
+    if site.kind == "index" and site.term is not None and len(site.term["ops"]) == 2:
+        n = _array_len((site.term["callee"] or {}).get("self_ty"))
+        if n is None:
+            return None
+        o = body.origin(site.term["ops"][1], through_calls=False)
+        if o[0] != "agg":
+            return None
+        rv = o[2]["rv"]
+        kind = (rv.get("adt") or "").split("::")[-1]
+        rs = [value_range(body, x) for x in rv["ops"]]
+        if any(r is None for r in rs):
+            return None
+        if kind == "RangeTo" and rs[0][1] <= n:
+            return "D-range: ..%s of an array of %d" % (_fmt_r(rs[0]), n)
+        if kind == "RangeToInclusive" and rs[0][1] < n:
+            return "D-range: ..=%s of an array of %d" % (_fmt_r(rs[0]), n)
+        if kind == "RangeFrom" and rs[0][1] <= n:
+            return "D-range: %s.. of an array of %d" % (_fmt_r(rs[0]), n)
+        if kind == "Range" and len(rs) == 2 and rs[1][1] <= n and rs[0][1] <= rs[1][0]:
+            return "D-range: %s..%s of an array of %d" % (_fmt_r(rs[0]), _fmt_r(rs[1]), n)
+    return None
+
+
+def _fmt_r(r):
+    return str(r[0]) if r[0] == r[1] else "[%d, %s]" % (r[0], r[1] if r[1] < 2 ** 32 else "2^%d-1" % r[1].bit_length())
+
 
 
 def d_quota(site):
@@ -1131,7 +1421,7 @@ def discharge(ctx, site, ledger):
     r = d_derive(site)
     if r:
         return r
-    for f in (d_const, d_guard, d_memlen, d_lenfit, d_len, d_cmp, d_quota, d_posindex, d_keydomain, d_stream, d_varint):
+    for f in (d_const, d_guard, d_range, d_memlen, d_lenfit, d_len, d_cmp, d_quota, d_posindex, d_keydomain, d_stream, d_varint):
         r = f(site)
         if r:
             return r
@@ -1163,7 +1453,7 @@ def panic_rule(ctx):
         out.append(Inst("PANIC", s_.key, r is not None, s_.site(), "%s site `%s` on %s: %s" % (s_.kind, s_.what, s_.prov or "-", r or "NOT discharged"),
                         "a dominating guard, a direct length comparison, constant folding, or a ledger entry with a reason"))
     import engine as _eng
-    links = sorted({ledger[k]["rule"] for k in used if ledger[k].get("rule")} | auto_links)
+    links = sorted({r_.strip() for k in used if ledger[k].get("rule") for r_ in ledger[k]["rule"].split(",")} | auto_links)
     for l in links:
         if l not in _eng.RULES:
             out.append(Inst("PANIC", "ledger-link:%s" % l, False, "rules/panic_ledger.json", "ledger entries rely on rule %s, which does not exist" % l, "every linked rule is implemented"))
